@@ -89,9 +89,9 @@ Definition lex_normal (c : byte) (out : list rtok) : lstate * list rtok :=
 Definition rep_literals (d1 : bytes) (comma : bool) (d2 : bytes) (out : list rtok) : list rtok :=
   map lit_tok d2 ++ (if comma then [lit_tok ","%byte] else []) ++ map lit_tok d1 ++ lit_tok "{"%byte :: out.
 Definition leading_zero (d_rev : bytes) : bool :=
-  match rev d_rev with c :: _ :: _ => beq c "0"%byte | _ => false end.
+  match rev' d_rev with c :: _ :: _ => beq c "0"%byte | _ => false end.
 Definition rep_count (d_rev : bytes) : option nat :=
-  match N_of_dec (rev d_rev) with
+  match N_of_dec (rev' d_rev) with
   | Some n => if N.leb n 1000 then Some (N.to_nat n) else None
   | None => None
   end.
@@ -179,9 +179,9 @@ Definition lex_step (st : lstate * list rtok) (c : byte) : lstate * list rtok :=
 Definition lex_from (st : lstate * list rtok) (s : bytes) := fold_left lex_step s st.
 Definition lex (s : bytes) : res (list rtok) :=
   match lex_from (LNormal, []) s with
-  | (LNormal, out) => Ok (rev out)
-  | (LRep d1 comma d2, out) => Ok (rev (rep_literals d1 comma d2 out))
-  | (LLp, out) => Ok (rev (TLp :: out))
+  | (LNormal, out) => Ok (rev' out)
+  | (LRep d1 comma d2, out) => Ok (rev' (rep_literals d1 comma d2 out))
+  | (LLp, out) => Ok (rev' (TLp :: out))
   | (LUnsup, _) => Unsupported
   | (LHex _ _, _) => Unsupported
   | _ => Err                                  (* trailing backslash, unclosed class, "(?" *)
@@ -196,8 +196,8 @@ Inductive pstate := PS (cur : frame) (stack : list frame) (lq : bool) (lazy_ok :
 Definition close_frame (f : frame) : re :=
   let '(alts, cat) := f in
   match alts with
-  | [] => RCat (rev cat)
-  | _ => RAlt (rev (RCat (rev cat) :: alts))
+  | [] => RCat (rev' cat)
+  | _ => RAlt (rev' (RCat (rev' cat) :: alts))
   end.
 Definition push_atom (a : re) (f : frame) : frame := (fst f, a :: snd f).
 
@@ -223,7 +223,7 @@ Definition parse_step (st : pstate) (t : rtok) : pstate :=
              | parent :: stack' => PS (push_atom (close_frame cur) parent) stack' false false
              | [] => PErr
              end
-    | TBar => PS (RCat (rev (snd cur)) :: fst cur, []) stack false false
+    | TBar => PS (RCat (rev' (snd cur)) :: fst cur, []) stack false false
     | TStar => quant RStar st
     | TPlus => quant RPlus st
     | TQuest => if lq && lz then PS cur stack true false      (* lazy marker: same language *)
